@@ -488,3 +488,20 @@ func init() {
 		return h
 	})
 }
+
+func (in *Exec) modelLastIndex(s, sub []*Term) *Term {
+	tb := in.tb
+	res := in.intConst(-1)
+	for i := 0; i+len(sub) <= len(s); i++ {
+		res = tb.Ite(in.bytesEq(s[i:i+len(sub)], sub), in.intConst(int64(i)), res)
+	}
+	return res
+}
+
+func init() {
+	li := func(in *Exec, _ *frame, a []value) value { return in.modelLastIndex(bytesOf(a[0]), bytesOf(a[1])) }
+	reg("bytes.LastIndex", li)
+	reg("strings.LastIndex", li)
+	pureIntrinsicNames["bytes.LastIndex"] = true
+	pureIntrinsicNames["strings.LastIndex"] = true
+}
